@@ -116,6 +116,40 @@ HARNESS(h_setitem_vector_slice)
            for (u64 k = 0; k < len; k++) { u32 want = init[k * stride]; for (i64 j = 0; j < n; j++) if ((i64)s + j * st == (i64)k) want = src[j]; CHECK(data[k * stride] == want, "a[slice] = b assigns b[j] to the j-th selected element"); } }
     END;
 }
+HARNESS(h_setitem_vector_slice_masked)
+{   /* the same statement on a masked reference (possibly of a strided component view): element k of the view is slot idxs[k]*stride */
+    INPUTS; IN(i64, s0); IN(i64, e0); IN(i64, st); IN(u64, m); INA(u32, src, N);
+    ASSUME((writable & 1) && (masked & 1) && st != 0 && st >= -3 && st <= 3 && s0 >= -5 && s0 <= 5 && e0 >= -5 && e0 <= 5 && m <= N);
+    static u32 sdat[N]; for (int i = 0; i < N; i++) sdat[i] = src[i];
+    FA d; d.f0 = sdat; d.f1 = m; d.f2 = 1; d.f3 = 1; d.f4.f0 = 0; d.f5.f0 = 0; d.f5.f1.f0 = 0; d.f6 = 0;
+    sl_start = s0; sl_stop = e0; sl_step = st;
+    __verif_exc = 0; w_setitem_vector(&a, &slice_obj, &d);
+    u64 s = s0, e = e0; i64 n = STUB_PySlice_AdjustIndices(len, &s, &e, st);
+    if ((u64)n != m) { CHECK(__verif_exc != 0, "length mismatch raises"); for (u64 j = 0; j < cap; j++) CHECK(data[j] == init[j], "and writes nothing"); }
+    else { CHECK(__verif_exc == 0, "matching lengths do not raise");
+           u32 want[2 * N]; for (u64 j = 0; j < 2 * N; j++) want[j] = init[j];
+           for (u64 k = 0; k < len; k++) for (i64 j = 0; j < n; j++) if ((i64)s + j * st == (i64)k) want[SLOT(k)] = src[j];
+           for (u64 j = 0; j < cap; j++) CHECK(data[j] == want[j], "view[slice] = b assigns b[j] to the j-th selected element of the masked view and touches no other slot of the backing store"); }
+    END;
+}
+HARNESS(h_setitem_vector_mask)
+{   /* a[mask] = b: b either has a's length (b[i] stored where mask[i]) or as many elements as the mask selects (stored in order);
+       masked references and every length mismatch raise and write nothing */
+    INPUTS; IN(u64, ml); IN(u64, dl); INA(u32, mk, N); INA(u32, src, N);
+    ASSUME((writable & 1) && ml <= N && dl <= N);
+    static u32 mdat[N], sdat[N]; for (int i = 0; i < N; i++) { mdat[i] = mk[i]; sdat[i] = src[i]; }
+    FA m; m.f0 = mdat; m.f1 = ml; m.f2 = 1; m.f3 = 1; m.f4.f0 = 0; m.f5.f0 = 0; m.f5.f1.f0 = 0; m.f6 = 0;
+    FA d = m; d.f0 = sdat; d.f1 = dl;
+    __verif_exc = 0; w_setitem_vector_mask(&a, &m, &d);
+    u64 count = 0; for (u64 i = 0; i < N; i++) if (i < ml && mk[i]) count++;
+    if ((masked & 1) || ml != len || (dl != len && dl != count)) {
+        CHECK(__verif_exc != 0, "masked reference, mask length mismatch or source length mismatch raises"); for (u64 j = 0; j < cap; j++) CHECK(data[j] == init[j], "and writes nothing"); }
+    else { CHECK(__verif_exc == 0, "matching lengths do not raise");
+           u32 want[2 * N]; for (u64 j = 0; j < 2 * N; j++) want[j] = init[j];
+           u64 di = 0; for (u64 i = 0; i < N; i++) if (i < len && mk[i]) { want[i * stride] = (dl == len) ? src[i] : src[di]; di++; }
+           for (u64 j = 0; j < cap; j++) CHECK(data[j] == want[j], "a[mask] = b stores exactly the selected elements, from b[i] (equal lengths) or from b in order (compressed source)"); }
+    END;
+}
 HARNESS(h_setitem_scalar_mask)
 {
     INPUTS; IN(u64, ml); INA(u32, mk, N);
